@@ -265,6 +265,7 @@ class Facts:
         from . import inline
         voc = inline.load_vocabulary()
         self.inlined = inline.inline_new_helpers(self.raw, voc, strip_lt) if voc is not None and self.raw.get("crate") == "regexml" else []
+        self.renamed_closures = inline.canonicalise_closures(self.raw) if self.inlined else {}
         self.crate = self.raw["crate"]
         self.nonce = self.raw.get("nonce")
         self.bodies = [Body(b) for b in self.raw["bodies"]]
